@@ -113,13 +113,23 @@ def run(index, rep, tier):
                     continue
                 nset += 1
                 need = sorted(srcs[w.attr])
-                allc = set(need) | {"compile_lookup_mappings"}
                 bad = None
-                for nd in g.nodes_of_stmt(w.stmt):
-                    ok, wit = g.must_pass(nd, lambda n, allc=allc: any(norm(k.func) in ["self." + r for r in allc] for k in node_calls(n)),
-                                          edge_ok=lambda a_, lab, b_: not (a_.kind == "test" and norm(a_.ast) == "self.autocompile_lookup_tables" and lab == "f"))
-                    if not ok:
-                        bad = wit
+                # EVERY compile step that reads the designation is re-run (directly, or through a wrapper that runs it on every path)
+                for r_ in need:
+                    runs_r = {r_}
+                    for w_ in SA.methods.values():
+                        if w_.name == r_:
+                            continue
+                        gw = cfg_of(w_)
+                        okw, _x = gw.must_pass(gw.entry, lambda n, r_=r_: any(norm(k.func) == "self." + r_ for k in node_calls(n)), skip_src=False)
+                        if okw:
+                            runs_r.add(w_.name)
+                    for nd in g.nodes_of_stmt(w.stmt):
+                        ok, wit = g.must_pass(nd, lambda n, runs_r=runs_r: any(norm(k.func) in ["self." + r for r in runs_r] for k in node_calls(n)),
+                                              edge_ok=lambda a_, lab, b_: not (a_.kind == "test" and norm(a_.ast) == "self.autocompile_lookup_tables" and lab == "f"))
+                        if not ok:
+                            bad = wit
+                            need = [r_]
                 rep.check(bad is None, "R16.8", m.qualname, "sets %s without re-running %s" % (w.attr, need), fn_where(m, w.stmt), "%s sets %s and recompiles" % (m.name, w.attr),
                           "%s assigns `self.%s` and returns without re-running %s, which is where the per-state flags (is_gap_state, gap_state_as_no_data_state) and the missing-data state's members are derived from it: designating the gap symbol after construction has no effect until some later, unrelated compile - parsimony_score(gaps_as_missing=True) keeps counting gaps as a state" % (m.qualname, w.attr, need))
         rep.floor("R16.8", "setters of the gap / missing-data designation", 2, nset)
@@ -296,7 +306,7 @@ def run(index, rep, tier):
 
     # ---- R16.11 the scoring passes write only into lists they made
     with rep.section("R16.11"):
-        rep.rule("R16.11", "the scoring passes write only into lists they made themselves: in dendropy.model.parsimony an element/slice store or mutator call goes to a name that is bound, everywhere in the function, to a freshly built container (or to the documented out-parameter score_by_character_list) - state-set lists taken from a node or from taxon_state_sets_map are shared with the caller and with other trees and are only ever rebound")
+        rep.rule("R16.11", "the scoring passes write only into lists they made themselves: in dendropy.model.parsimony an element/slice store, an in-place set operator (`|=`, `&=`, `^=`) or a mutator call goes to a name that is bound, everywhere in the function, to a freshly built container (or to the documented out-parameter score_by_character_list) - state-set lists taken from a node or from taxon_state_sets_map are shared with the caller and with other trees and are only ever rebound")
         n11 = 0
         FRESH_CALLS = {"list", "set", "dict", "tuple", "frozenset", "sorted", "_NodeStateSetMap"}
 
@@ -329,6 +339,9 @@ def run(index, rep, tier):
                 for t in tg:
                     if isinstance(t, ast.Subscript) and isinstance(t.value, ast.Name):
                         sites.append((t.value.id, "%s[...] stored" % t.value.id, st))
+                if isinstance(st, ast.AugAssign) and isinstance(st.target, ast.Name) and isinstance(st.op, (ast.BitOr, ast.BitAnd, ast.BitXor)):
+                    # `s |= other` on a set updates it in place
+                    sites.append((st.target.id, "%s %s= ..." % (st.target.id, {"BitOr": "|", "BitAnd": "&", "BitXor": "^"}[type(st.op).__name__]), st))
                 if isinstance(st, ast.Call) and isinstance(st.func, ast.Attribute) and st.func.attr in MUTATORS and isinstance(st.func.value, ast.Name):
                     sites.append((st.func.value.id, "%s.%s()" % (st.func.value.id, st.func.attr), st))
             for nm, what, st in sites:
